@@ -103,6 +103,7 @@ func (fv *FuncVerifier) execStmt(st *State, env *Env, s ast.Stmt) []Outcome {
 								r := fv.alloc(st, types.NewPointer(o.Type()), n.Name)
 								fv.specialAlloc(st, r, o.Type())
 								st.vars[o] = r
+								fv.maybeProtect(st, o, r)
 								continue
 							}
 						}
@@ -223,6 +224,7 @@ func (fv *FuncVerifier) define(st *State, env *Env, id *ast.Ident, v Term, from 
 		return
 	}
 	st.vars[o] = fv.convert(st, v, from, o.Type())
+	fv.maybeProtect(st, o, st.vars[o])
 }
 
 func (fv *FuncVerifier) execAssign(st *State, env *Env, x *ast.AssignStmt) {
@@ -775,7 +777,27 @@ func (fv *FuncVerifier) callWrites(env *Env, call *ast.CallExpr, ws *writeSet, d
 				return
 			case "content":
 				ws.heap[contentKey] = true
-				ws.addBase(contentKey, nil)
+				if sel, ok := fun.(*ast.SelectorExpr); ok {
+					if s2, ok := info.Selections[sel]; ok && s2.Kind() == types.MethodVal {
+						ws.addBase(contentKey, sel.X)
+						return
+					}
+				}
+				if len(call.Args) > 0 {
+					ws.addBase(contentKey, call.Args[0])
+				} else {
+					ws.addBase(contentKey, nil)
+				}
+				return
+			case "fx":
+				return
+			case "scanner":
+				ws.heap["$scan:pos"] = true
+				if sel, ok := fun.(*ast.SelectorExpr); ok {
+					ws.addBase("$scan:pos", sel.X)
+				} else {
+					ws.addBase("$scan:pos", nil)
+				}
 				return
 			}
 		}
@@ -803,6 +825,11 @@ func (fv *FuncVerifier) callWrites(env *Env, call *ast.CallExpr, ws *writeSet, d
 							continue
 						}
 						if tgt == "" || tgt == "nothing" {
+							continue
+						}
+						if strings.HasPrefix(tgt, "content(") {
+							ws.heap[contentKey] = true
+							ws.addBase(contentKey, nil)
 							continue
 						}
 						parts := strings.Split(tgt, ".")
@@ -1038,6 +1065,10 @@ func (fv *FuncVerifier) runLoopR(st *State, env *Env, lc *loopCtx, label string,
 	}
 	for _, iv := range fv.loopInvariants(head, lc) {
 		head.Assume(iv.t)
+	}
+	// `loop k assume E`: an assumption about values the loop works on (listed in evidence), not checked
+	for _, cl := range fv.fn.Contr.Get("assume", lc.ord, 0) {
+		head.Assume(fv.evalClause(head, cl, lc.bodyPos, lc.names, lc.entry))
 	}
 	var dec0 []Term
 	decs := fv.fn.Contr.Get("decreases", lc.ord, 0)
@@ -1432,9 +1463,11 @@ func (fv *FuncVerifier) execRangeFunc(st *State, env *Env, x *ast.RangeStmt, lab
 			lc.names[itName] = getIt(st)
 			if n >= 1 {
 				lc.names[fmt.Sprintf("ys%d", ord)] = ys
+				st.ghost[fmt.Sprintf("ys%d", ord)] = ys
 			}
 			if n >= 2 {
 				lc.names[fmt.Sprintf("ys%db", ord)] = ys2
+				st.ghost[fmt.Sprintf("ys%db", ord)] = ys2
 			}
 		},
 		func(st *State) Term { return Lt(getIt(st), lenYs) },
